@@ -36,8 +36,9 @@ def setup_env():
     os.makedirs(os.environ["NUMBA_CACHE_DIR"], exist_ok=True)
     os.makedirs(REPLAY, exist_ok=True)
     os.makedirs(EVID, exist_ok=True)
-    if "/repo" not in sys.path:
-        sys.path.insert(0, "/repo")
+    repo = os.environ.get("VERIF_REPO", "/repo")      # /repo's working tree unless a scratch copy is named (tools/try_seeded_wt.sh)
+    if repo not in sys.path:
+        sys.path.insert(0, repo)
 
 
 def quiet():
